@@ -3,8 +3,11 @@ package props
 import (
 	"encoding/json"
 	"fmt"
+	"github.com/jf-tech/omniparser"
+	"io"
 	"regexp"
 	"strings"
+	"testing/iotest"
 
 	"verif/mc/core"
 	"verif/mc/gen"
@@ -31,6 +34,7 @@ func c10Formats() []c10Fmt {
 	ctxSelf := `{"custom_func":{"name":"javascript_with_context","args":[{"const":"var n = JSON.parse(_node); Object.keys(n).sort().join('+')"}]}}`
 	return []c10Fmt{
 		{Name: "xml", Schema: `{` + h("xml") + `,"transform_declarations":{"FINAL_OUTPUT":{"xpath":"/r/o","object":{
+  "anc":{"xpath":"..","object":{"cur":{"xpath":"o/N"},"cnt":{"custom_func":{"name":"concat","args":[{"xpath":"o/@id"},{"const":"/"},{"xpath":"o/J"}]}}}},
   "id":{"xpath":"@id"},"n":{"xpath":"N","type":"int"},"m":{"xpath":"M"},"j":` + jsThrow + `,"keys":` + ctxSelf + `,
   "items":{"array":[{"xpath":"I","custom_func":{"name":"javascript_with_context","args":[{"const":"JSON.parse(_node)"}]}}]},
   "first":{"xpath":"I[1]","template":"T"},"cp":{"custom_func":{"name":"copy"}},"firstcp":{"xpath":"I[1]","custom_func":{"name":"copy"}}}},
@@ -42,6 +46,7 @@ func c10Formats() []c10Fmt {
 				'D': `<o id="4"><I>e</I><N>4</N><M>1</M><M>2</M><J>x</J></o>`,
 				'E': `<o id="5"><I>f</I><N>5</N><J>boom</J></o>`}},
 		{Name: "json", Schema: `{` + h("json") + `,"transform_declarations":{"FINAL_OUTPUT":{"xpath":"/*","object":{
+  "anc":{"xpath":"..","object":{"cur":{"xpath":"*/N"},"cnt":{"custom_func":{"name":"concat","args":[{"xpath":"*/id"},{"const":"/"},{"xpath":"*/J"}]}}}},
   "id":{"xpath":"id"},"n":{"xpath":"N","type":"int"},"m":{"xpath":"M/*"},"j":` + jsThrow + `,"keys":` + ctxSelf + `,
   "items":{"array":[{"xpath":"I/*","custom_func":{"name":"javascript_with_context","args":[{"const":"JSON.parse(_node)"}]}}]},
   "first":{"xpath":"I/*[1]","template":"T"},"cp":{"custom_func":{"name":"copy"}},"firstcp":{"xpath":"I/*[1]","custom_func":{"name":"copy"}}}},
@@ -58,7 +63,8 @@ func c10Formats() []c10Fmt {
 			Rec: map[byte]string{'A': "a1,1,x,-\n", 'B': "\"b,2\",22,y,dup\n", 'C': "c3,zz,x,-\n", 'D': "d4,4,dup,dup\n", 'E': "e5,5,boom,-\n"}},
 		{Name: "csv2", Schema: `{` + h("csv2") + `,"file_declaration":{"delimiter":",","records":[{"name":"H","header":"^H","is_target":true,"columns":[{"name":"id","index":2},{"name":"N","index":3},{"name":"J","index":4}],
    "child_records":[{"name":"D","header":"^D","columns":[{"name":"v","index":2}]},{"name":"M","header":"^M","columns":[{"name":"w","index":2}]}]}]},
- "transform_declarations":{"FINAL_OUTPUT":{"object":{"id":{"xpath":"id"},"n":{"xpath":"N","type":"int"},"m":{"xpath":"M/w"},"j":` + jsThrow + `,"keys":` + ctxSelf + `,
+ "transform_declarations":{"FINAL_OUTPUT":{"object":{"anc":{"xpath":"..","object":{"cur":{"xpath":"H/N"},"cnt":{"custom_func":{"name":"concat","args":[{"xpath":"H/id"},{"const":"/"},{"xpath":"H/J"}]}}}},
+  "id":{"xpath":"id"},"n":{"xpath":"N","type":"int"},"m":{"xpath":"M/w"},"j":` + jsThrow + `,"keys":` + ctxSelf + `,
   "items":{"array":[{"xpath":"D","custom_func":{"name":"javascript_with_context","args":[{"const":"JSON.parse(_node).v"}]}}]},"cp":{"custom_func":{"name":"copy"}},"first":{"xpath":"D[1]/v","template":"T"}}},
  "T":{"custom_func":{"name":"upper","args":[{"xpath":"."}]}}}}`,
 			Rec: map[byte]string{'A': "H,a1,1,x\nD,a\nD,b\n", 'B': "H,b2,22,y\nD,c\nM,m\n", 'C': "H,c3,zz,x\nD,d\n", 'D': "H,d4,4,x\nD,e\nM,1\nM,2\n", 'E': "H,e5,5,boom\nD,f\n"}},
@@ -68,14 +74,16 @@ func c10Formats() []c10Fmt {
 			Rec: map[byte]string{'A': "1a1 1\n2x   -\n", 'B': "1b222\n2y   dup\n", 'C': "1c3zz\n2x   -\n", 'D': "1d4 4\n2dup dup\n", 'E': "1e5 5\n2boom-\n"}},
 		{Name: "fixedlength2", Schema: `{` + h("fixedlength2") + `,"file_declaration":{"envelopes":[{"name":"H","header":"^H","is_target":true,"columns":[{"name":"id","start_pos":2,"length":2},{"name":"N","start_pos":4,"length":2},{"name":"J","start_pos":6,"length":4}],
    "child_envelopes":[{"name":"D","header":"^D","columns":[{"name":"v","start_pos":2,"length":1}]},{"name":"M","header":"^M","columns":[{"name":"w","start_pos":2,"length":1}]}]}]},
- "transform_declarations":{"FINAL_OUTPUT":{"object":{"id":{"xpath":"id"},"n":{"xpath":"N","type":"int"},"m":{"xpath":"M/w"},"j":` + jsThrow + `,"keys":` + ctxSelf + `,
+ "transform_declarations":{"FINAL_OUTPUT":{"object":{"anc":{"xpath":"..","object":{"cur":{"xpath":"H/N"},"cnt":{"custom_func":{"name":"concat","args":[{"xpath":"H/id"},{"const":"/"},{"xpath":"H/J"}]}}}},
+  "id":{"xpath":"id"},"n":{"xpath":"N","type":"int"},"m":{"xpath":"M/w"},"j":` + jsThrow + `,"keys":` + ctxSelf + `,
   "items":{"array":[{"xpath":"D","custom_func":{"name":"javascript_with_context","args":[{"const":"JSON.parse(_node).v"}]}}]},"cp":{"custom_func":{"name":"copy"}},"first":{"xpath":"D[1]/v","template":"T"}}},
  "T":{"custom_func":{"name":"upper","args":[{"xpath":"."}]}}}}`,
 			Rec: map[byte]string{'A': "Ha1 1x\nDa\nDb\n", 'B': "Hb222y\nDc\nMm\n", 'C': "Hc3zzx\nDd\n", 'D': "Hd4 4x\nDe\nM1\nM2\n", 'E': "He5 5boom\nDf\n"}},
 		{Name: "edi", Schema: `{` + h("edi") + `,"file_declaration":{"segment_delimiter":"~","element_delimiter":"*","segment_declarations":[{"name":"ISA","child_segments":[
    {"name":"grp","type":"segment_group","is_target":true,"min":0,"max":-1,"child_segments":[{"name":"H","elements":[{"name":"id","index":1},{"name":"N","index":2},{"name":"J","index":3}]},
      {"name":"D","min":0,"max":-1,"elements":[{"name":"v","index":1}]},{"name":"M","min":0,"max":-1,"elements":[{"name":"w","index":1}]}]}]},{"name":"IEA"}]},
- "transform_declarations":{"FINAL_OUTPUT":{"object":{"id":{"xpath":"H/id"},"n":{"xpath":"H/N","type":"int"},"m":{"xpath":"M/w"},"j":{"xpath":"H","template":"JS"},"keys":` + ctxSelf + `,
+ "transform_declarations":{"FINAL_OUTPUT":{"object":{"anc":{"xpath":"..","object":{"cur":{"xpath":"grp/H/N"},"cnt":{"custom_func":{"name":"concat","args":[{"xpath":"grp/H/id"},{"const":"/"},{"xpath":"grp/H/J"}]}}}},
+  "id":{"xpath":"H/id"},"n":{"xpath":"H/N","type":"int"},"m":{"xpath":"M/w"},"j":{"xpath":"H","template":"JS"},"keys":` + ctxSelf + `,
   "items":{"array":[{"xpath":"D","custom_func":{"name":"javascript_with_context","args":[{"const":"JSON.parse(_node).v"}]}}]},"cp":{"custom_func":{"name":"copy"}},"first":{"xpath":"D[1]/v","template":"T"}}},
  "JS":` + jsThrow + `,"T":{"custom_func":{"name":"upper","args":[{"xpath":"."}]}}}}`,
 			Prefix: "ISA~", Suffix: "IEA~", Rec: map[byte]string{'A': "H*a1*1*x~D*a~D*b~", 'B': "H*b2*22*y~D*c~M*m~", 'C': "H*c3*zz*x~D*d~", 'D': "H*d4*4*x~D*e~M*1~M*2~", 'E': "H*e5*5*boom~D*f~"}},
@@ -168,11 +176,160 @@ func c10Check(cs c10Case, solo map[byte]string) (sig, detail string) {
 	return "", ""
 }
 
+// ---- long sequences: reader buffers must not carry bytes from one record into another ----
+
+type c10Long struct {
+	Name           string
+	Schema         string
+	Prefix, Suffix string
+	Sep            string
+	Gen            func(id, fill int) string // record number id (distinct data), with a filler value of the given length
+	RecLen         int                       // approximate record length (sweep width for the first record's filler)
+}
+
+func c10LongFormats() []c10Long {
+	h := func(f string) string {
+		return `"parser_settings":{"version":"omni.2.1","file_format_type":"` + f + `"}`
+	}
+	fo := `"transform_declarations":{"FINAL_OUTPUT":{"object":{"a":{"xpath":"a"},"b":{"xpath":"b"},"c":{"xpath":"c"},"f":{"xpath":"f"}}}}`
+	x := func(n int) string { return strings.Repeat("x", n) }
+	return []c10Long{
+		{Name: "fixedlength2-rows3", Schema: `{` + h("fixedlength2") + `,"file_declaration":{"envelopes":[{"name":"E","rows":3,"columns":[{"name":"a","start_pos":1,"length":8,"line_index":1},{"name":"f","start_pos":9,"length":60,"line_index":1},{"name":"b","start_pos":1,"length":8,"line_index":2},{"name":"c","start_pos":1,"length":8,"line_index":3}]}]},` + fo + `}`,
+			Gen: func(id, fill int) string { return fmt.Sprintf("A%07d%s\nB%07d\nC%07d\n", id, x(fill), id, id) }, RecLen: 27},
+		{Name: "fixedlength2-rows2-blank-line-inside", Schema: `{` + h("fixedlength2") + `,"file_declaration":{"envelopes":[{"name":"E","rows":2,"columns":[{"name":"a","start_pos":1,"length":8,"line_index":1},{"name":"f","start_pos":9,"length":60,"line_index":1},{"name":"b","start_pos":1,"length":8,"line_index":2},{"name":"c","start_pos":2,"length":7,"line_index":2}]}]},` + fo + `}`,
+			Gen: func(id, fill int) string { return fmt.Sprintf("A%07d%s\n\nB%07d\n", id, x(fill), id) }, RecLen: 19},
+		{Name: "fixedlength2-header-footer", Schema: `{` + h("fixedlength2") + `,"file_declaration":{"envelopes":[{"name":"E","header":"^A","footer":"^C","columns":[{"name":"a","start_pos":1,"length":8,"line_pattern":"^A"},{"name":"f","start_pos":9,"length":60,"line_pattern":"^A"},{"name":"b","start_pos":1,"length":8,"line_pattern":"^B"},{"name":"c","start_pos":1,"length":8,"line_pattern":"^C"}]}]},` + fo + `}`,
+			Gen: func(id, fill int) string { return fmt.Sprintf("A%07d%s\nB%07d\nC%07d\n", id, x(fill), id, id) }, RecLen: 27},
+		{Name: "fixed-length-rows3", Schema: `{` + h("fixed-length") + `,"file_declaration":{"envelopes":[{"by_rows":3,"columns":[{"name":"a","start_pos":1,"length":8,"line_pattern":"^A"},{"name":"f","start_pos":9,"length":60,"line_pattern":"^A"},{"name":"b","start_pos":1,"length":8,"line_pattern":"^B"},{"name":"c","start_pos":1,"length":8,"line_pattern":"^C"}]}]},` + fo + `}`,
+			Gen: func(id, fill int) string { return fmt.Sprintf("A%07d%s\nB%07d\nC%07d\n", id, x(fill), id, id) }, RecLen: 27},
+		{Name: "csv2-rows3", Schema: `{` + h("csv2") + `,"file_declaration":{"delimiter":",","records":[{"name":"E","rows":3,"columns":[{"name":"a","index":1,"line_index":1},{"name":"f","index":2,"line_index":1},{"name":"b","index":1,"line_index":2},{"name":"c","index":2,"line_index":3}]}]},` + fo + `}`,
+			Gen: func(id, fill int) string {
+				return fmt.Sprintf("A%07d,%s\nB%07d,\"q,%d\"\nx,C%07d\n", id, x(fill), id, id, id)
+			}, RecLen: 40},
+		{Name: "csv", Schema: `{` + h("csv") + `,"file_declaration":{"delimiter":",","data_row_index":1,"columns":[{"name":"a"},{"name":"f"},{"name":"b"},{"name":"c"}]},` + fo + `}`,
+			Gen: func(id, fill int) string { return fmt.Sprintf("A%07d,%s,\"B%07d\nx\",C%07d\n", id, x(fill), id, id) }, RecLen: 32},
+		{Name: "edi-group", Schema: `{` + h("edi") + `,"file_declaration":{"segment_delimiter":"~","element_delimiter":"*","segment_declarations":[{"name":"g","type":"segment_group","is_target":true,"min":0,"max":-1,"child_segments":[{"name":"H","elements":[{"name":"a","index":1},{"name":"f","index":2,"default":""}]},{"name":"D","elements":[{"name":"b","index":1}]},{"name":"T","elements":[{"name":"c","index":1}]}]}]},"transform_declarations":{"FINAL_OUTPUT":{"object":{"a":{"xpath":"H/a"},"b":{"xpath":"D/b"},"c":{"xpath":"T/c"},"f":{"xpath":"H/f"}}}}}`,
+			Gen: func(id, fill int) string { return fmt.Sprintf("H*A%07d*%s~D*B%07d~T*C%07d~", id, x(fill), id, id) }, RecLen: 34},
+		{Name: "xml", Schema: `{` + h("xml") + `,"transform_declarations":{"FINAL_OUTPUT":{"xpath":"/r/o","object":{"a":{"xpath":"a"},"b":{"xpath":"@b"},"c":{"xpath":"c"},"f":{"xpath":"f"}}}}}`,
+			Prefix: "<r>", Suffix: "</r>",
+			Gen: func(id, fill int) string {
+				return fmt.Sprintf(`<o b="B%07d"><a>A%07d</a><f>%s</f><c>C%07d</c></o>`, id, id, x(fill), id)
+			}, RecLen: 60},
+		{Name: "json", Schema: `{` + h("json") + `,"transform_declarations":{"FINAL_OUTPUT":{"xpath":"/*","object":{"a":{"xpath":"a"},"b":{"xpath":"b"},"c":{"xpath":"c/*"},"f":{"xpath":"f"}}}}}`,
+			Prefix: "[", Suffix: "]", Sep: ",",
+			Gen: func(id, fill int) string {
+				return fmt.Sprintf(`{"a":"A%07d","f":"%s","b":"B%07d","c":["C%07d"]}`, id, x(fill), id, id)
+			}, RecLen: 58},
+	}
+}
+
+type c10LongCase struct {
+	Fmt   string `json:"format_item"`
+	N     int    `json:"records"`
+	Fill  int    `json:"first_record_filler_length"`
+	Slice int    `json:"delivery_chunk,omitempty"` // 0 = whole input at once
+}
+
+var c10LongSchemas = map[string]omniparser.Schema{}
+
+func c10LongRun(f c10Long, recs []string, chunk int) ([]string, string) {
+	schema, ok := c10LongSchemas[f.Schema]
+	if !ok {
+		sc, err, _ := hx.NewSchema("s", f.Schema)
+		if err != nil {
+			return nil, "schema rejected: " + err.Error()
+		}
+		schema = sc
+		c10LongSchemas[f.Schema] = sc
+	}
+	in := f.Prefix + strings.Join(recs, f.Sep) + f.Suffix
+	var rd io.Reader = strings.NewReader(in)
+	if chunk > 0 {
+		rd = iotest.DataErrReader(&chunkReader{s: in, n: chunk})
+	}
+	r := hx.Run(schema, rd, hx.Opts{MaxReads: len(recs) + 10})
+	if r.PanicSite != "" {
+		return nil, "panic " + r.PanicVal + " @ " + r.PanicSite
+	}
+	var out []string
+	for _, s := range r.Steps {
+		out = append(out, c10Norm(s))
+	}
+	return out, ""
+}
+
+type chunkReader struct {
+	s string
+	n int
+}
+
+func (c *chunkReader) Read(p []byte) (int, error) {
+	if len(c.s) == 0 {
+		return 0, io.EOF
+	}
+	n := c.n
+	if n > len(p) {
+		n = len(p)
+	}
+	if n > len(c.s) {
+		n = len(c.s)
+	}
+	copy(p, c.s[:n])
+	c.s = c.s[n:]
+	return n, nil
+}
+
+// c10LongCheck: a sequence of N records with distinct data, the first carrying a filler of the given
+// length (which moves every later record, and so every buffer boundary, by one byte per step);
+// every position must equal the record transformed alone.
+func c10LongCheck(cs c10LongCase, solo map[string]string) (sig, detail string) {
+	var f *c10Long
+	for _, x := range c10LongFormats() {
+		if x.Name == cs.Fmt {
+			x := x
+			f = &x
+		}
+	}
+	if f == nil {
+		return "harness:unknown-format", cs.Fmt
+	}
+	recs := make([]string, cs.N)
+	for i := range recs {
+		fill := 0
+		if i == 0 {
+			fill = cs.Fill
+		}
+		recs[i] = f.Gen(i+1, fill)
+	}
+	out, e := c10LongRun(*f, recs, cs.Slice)
+	if e != "" {
+		return "panic-or-setup:" + f.Name, e
+	}
+	if len(out) != cs.N+1 || out[len(out)-1] != "eof" {
+		return "result-count:" + f.Name, fmt.Sprintf("%+v: %d results, last %v", cs, len(out), out[len(out)-1])
+	}
+	for i := range recs {
+		want, ok := solo[recs[i]]
+		if !ok {
+			o, e := c10LongRun(*f, []string{recs[i]}, 0)
+			if e != "" || len(o) != 2 || o[1] != "eof" || !strings.HasPrefix(o[0], "rec ") {
+				return "harness:solo-run", fmt.Sprintf("%s record %q: %v %s", f.Name, recs[i], o, e)
+			}
+			want = o[0]
+			solo[recs[i]] = want
+		}
+		if out[i] != want {
+			return "record-depends-on-neighbours:long:" + f.Name, fmt.Sprintf("%+v position %d (record %q, input offset %d):\n-- in the sequence: %s\n-- alone:           %s", cs, i, recs[i], len(f.Prefix)+len(strings.Join(recs[:i], f.Sep)), out[i], want)
+		}
+	}
+	return "", ""
+}
+
 func init() {
 	core.Register(&core.Prop{
 		ID:    "C10",
 		Level: "exploration",
-		Rule:  "for each of the seven formats a schema that addresses only the record's own data (fields, type casts, arrays over children, templates, copy, javascript, javascript_with_context on the record and on its children) and a record alphabet {two good records with different data and shapes, one failing by type cast, one by multiple xpath matches, one by a throwing script}: every record sequence up to length 4 (thorough 6); oracle out(seq)[i] == out([seq[i]])[0] for every position (bytes, checksum, failure class and text without positions), which implies the concatenation, permutation and replacement laws; distinct by (format, sequence)",
+		Rule:  "for each of the seven formats a schema that addresses only the record's own data (fields, type casts, arrays over children, templates, copy, javascript, javascript_with_context on the record and on its children, and declarations evaluated on the record's surviving PARENT that read the current record through it) and a record alphabet {two good records with different data and shapes, one failing by type cast, one by multiple xpath matches, one by a throwing script}: every record sequence up to length 4 (thorough 6); oracle out(seq)[i] == out([seq[i]])[0] for every position (bytes, checksum, failure class and text without positions), which implies the concatenation, permutation and replacement laws; plus, for 9 multi-line / multi-segment record layouts, sequences of ~450 (thorough ~900) records with distinct data whose first record carries a filler of every length 0..record length (so that the 4096-byte reader buffer boundaries fall on every byte offset of a record), delivered at once and in 1000-byte chunks, every position compared with the record transformed alone; distinct by (format, sequence)",
 		Assumptions: []string{
 			"failure texts are compared after masking digits (line / segment numbers legitimately depend on the position)",
 		},
@@ -236,8 +393,48 @@ func init() {
 					return !c.TimeUp()
 				})
 			}
+			// long sequences: buffer boundaries at every offset of a record
+			for _, f := range c10LongFormats() {
+				solo := map[string]string{}
+				n := 3*4096/f.RecLen + 20
+				if !c.Quick() {
+					n = 6*4096/f.RecLen + 20
+				}
+				for fill := 0; fill <= f.RecLen+2; fill++ {
+					for _, chunk := range []int{0, 1000} {
+						idx++
+						if !c.Mine(idx) {
+							continue
+						}
+						cs := c10LongCase{Fmt: f.Name, N: n, Fill: fill, Slice: chunk}
+						c.Begin(func() interface{} { return map[string]interface{}{"long": cs} })
+						sig, detail := c10LongCheck(cs, solo)
+						c.Eval(fmt.Sprintf("long|%s|%d|%d", f.Name, fill, chunk))
+						c.Count("long_sequence_records", int64(n))
+						switch {
+						case strings.HasPrefix(sig, "harness:"):
+							c.HarnessError(sig + ": " + detail)
+						case sig != "":
+							c.Violation(sig, detail, map[string]interface{}{"long": cs}, func() string { s, _ := c10LongCheck(cs, map[string]string{}); return s })
+						}
+					}
+				}
+				if c.TimeUp() {
+					return
+				}
+			}
 		},
 		Replay: func(raw json.RawMessage) (string, string) {
+			var w struct {
+				Long *c10LongCase `json:"long"`
+			}
+			if json.Unmarshal(raw, &w) == nil && w.Long != nil {
+				sig, detail := c10LongCheck(*w.Long, map[string]string{})
+				if sig == "" {
+					detail = "every position equals its solo result"
+				}
+				return sig, detail
+			}
 			var cs c10Case
 			if err := json.Unmarshal(raw, &cs); err != nil {
 				return "harness:bad-replay", err.Error()
